@@ -76,6 +76,11 @@ theorem dispatch_good (exts : List Row) (s : Stanza) (h : ∀ r ∈ exts, r.good
       have hresp' : isResp s.type = false := by simpa using hresp
       simp [answeredRight, answeredTF, hreq', hresp']
 
+/-- one configuration and stanza that is not answered right refutes the full statement -/
+theorem refute (ms : List Mgr) (s : Stanza)
+    (h : answeredRight s (dispatch (ms.map rowOf) s).sent = false) : ¬ FullC08 := by
+  intro hf; have := hf ms s; rw [h] at this; exact Bool.noConfusion this
+
 /-! ### Row by row: good exactly outside the defect cells, for every stanza -/
 
 theorem run_pass (m : Mgr) (s : Stanza) (h : (rowOf m).beh = passBeh) : (rowOf m).good s = true := by
